@@ -143,7 +143,12 @@ def check_property(prop, tier='quick', seed=0, only=None, verbose=False):
     contracts = api.load(prop)
     if only:
         contracts = [c for c in contracts if c.name in only]
-    contracts = [c for c in contracts if tier == 'thorough' or not c.opts.get('thorough_only')]
+    # quick tier: everything except the contracts marked thorough_only - unless a listed known finding is shown by that contract
+    # (every listed finding is reported by both tiers)
+    import fnmatch as _fn
+    _listed = [k['contract'] for k in load_known() if k['property'] == prop]
+    contracts = [c for c in contracts if tier == 'thorough' or not c.opts.get('thorough_only') or
+                 any(_fn.fnmatchcase(c.name, pat) for pat in _listed)]
     if not contracts:
         print('ENGINE-ERROR property=%s no contracts' % prop)
         return 3
